@@ -100,6 +100,16 @@ ConvSeqs == {P1(<<ObsErr>> \o N2(a)) : a \in NumStrs} \cup {P1(<<ObsErr>> \o B2(
             \cup {P1(N2(a) \o N2(b) \o B2(c)) : a \in {<<113>>, <<49>>}, b \in {<<>>, <<50>>}, c \in {<<121>>, <<116>>}}
             \cup {P1(B2(a) \o N2(b) \o N2(c)) : a \in {<<121>>, <<116>>}, b \in {<<113>>, <<49>>}, c \in {<<>>, <<50>>}}
 
+\* the program itself may set err and errmsg; a succeeding conversion resets both, a failing one sets both
+UOps == << <<Pr(<<ECallB("str2num", <<EStr(<<113>>)>>)>>)>>, <<Pr(<<ECallB("str2num", <<EStr(<<55>>)>>)>>)>>, <<Pr(<<ECallB("str2bool", <<EStr(<<116>>)>>)>>)>>,
+           <<SAsg(EVar("err", T_bool), EBool(FALSE))>>, <<SAsg(EVar("err", T_bool), EBool(TRUE))>>,
+           <<SAsg(EVar("errmsg", T_str), EStr(<<109>>))>>, <<SAsg(EVar("errmsg", T_str), EStr(<<>>))>> >>
+UserErrSeqs == {P1(UOps[i] \o <<ObsErr>> \o UOps[j] \o <<ObsErr>> \o UOps[k] \o <<ObsErr>>) : i \in DOMAIN UOps, j \in DOMAIN UOps, k \in 1..3}
+
+\* test messages (third argument) appear literally in the failure text
+MsgTests == {[MkCase("FamBuiltin", "testmsg", P1(<<SCall(ECallB("test", <<Num(1), Num(2), EStr(m)>>)), Pr(<<Num(1)>>)>>)) EXCEPT !.noSummary = ns] :
+               m \in {<<109, 115, 103>>, <<50, 48, 37, 32, 111, 102>>, <<49, 48, 48, 37>>, <<37, 118>>, <<37, 37>>, <<>>}, ns \in BOOLEAN}
+
 \* printf / sprintf
 F_v == <<37, 118>>
 FmtProgs ==
@@ -144,7 +154,7 @@ FamCases == {MkCase("FamBuiltin", "str", p) : p \in StrFuncs \cup JoinFuncs}
             \cup {MkCase("FamBuiltin", "generic", p) : p \in Generic}
             \cup {MkCase("FamBuiltin", "num", p) : p \in NumFuncs}
             \cup {MkCase("FamBuiltin", "rand", p) : p \in RandProgs}
-            \cup {MkCase("FamBuiltin", "conv", p) : p \in ConvSeqs}
+            \cup {MkCase("FamBuiltin", "conv", p) : p \in ConvSeqs \cup UserErrSeqs} \cup MsgTests
             \cup {MkCase("FamBuiltin", "fmt", p) : p \in FmtProgs}
             \cup {MkCase("FamBuiltin", "exit", p) : p \in ExitProgs}
             \cup TestCases \cup IOCases
